@@ -531,3 +531,40 @@ Proof.
   split; [exact t_scalar_loss_spec|]. split; [exact t_avg_loss_spec|]. split; [exact t_mime_client_spec|].
   split; [exact t_mime_fullbatch_spec|exact t_domain_metrics_spec].
 Qed.
+
+(* ---------- the sum over clients is the translated tree_util.tree_sum ---------- *)
+(* a client output (grads_sum, num_sum) as the flat leaf list jax.tree_util sees *)
+Definition flat (p : list NanQ.t * NanQ.t) : list NanQ.t := fst p ++ [snd p].
+
+Lemma flat_tpair_add a b : length (fst a) = 1%nat -> length (fst b) = 1%nat ->
+  tree_add_eq (flat a) (flat b) = flat (tpair_add a b) /\ length (fst (tpair_add a b)) = 1%nat.
+Proof.
+  destruct a as [[|x [|? ?]] n], b as [[|y [|? ?]] m]; cbn; intros Ha Hb; try discriminate. split; reflexivity.
+Qed.
+
+Lemma tree_sum_fold l : forall acc, length (fst acc) = 1%nat -> Forall (fun p => length (fst p) = 1%nat) l ->
+  fold_left tree_sum_step (map flat l) (Some (flat acc)) = Some (flat (fold_left tpair_add l acc)).
+Proof.
+  induction l as [|y l IH]; intros acc Ha Hl; [reflexivity|].
+  inversion Hl as [|? ? Hy Hl']; subst. cbn [map fold_left].
+  destruct (flat_tpair_add acc y Ha Hy) as [E L]. unfold tree_sum_step at 2. cbv zeta. rewrite E. apply IH; assumption.
+Qed.
+
+Lemma tpair_sum_is_tree_sum l : l <> [] -> Forall (fun p => length (fst p) = 1%nat) l ->
+  tree_sum (map flat l) = Some (flat (tpair_sum l)).
+Proof.
+  intros Hne Hl. destruct l as [|x l]; [contradiction|]. inversion Hl as [|? ? Hx Hl']; subst.
+  unfold tree_sum, tree_sum_init. cbn [map fold_left tpair_sum]. unfold tree_sum_step at 2. cbv zeta. unfold copy_tree.
+  now apply tree_sum_fold.
+Qed.
+
+Lemma t_mime_client_one_leaf dr bs : length (fst (t_mime_client dr bs)) = 1%nat.
+Proof. rewrite t_mime_client_spec. reflexivity. Qed.
+
+Lemma mime_clients_tree_sum dr cl : cl <> [] ->
+  tree_sum (map flat (map (t_mime_client dr) cl)) = Some (flat (tpair_sum (map (t_mime_client dr) cl))).
+Proof.
+  intros H. apply tpair_sum_is_tree_sum.
+  - destruct cl; [contradiction|discriminate].
+  - apply Forall_forall. intros p Hp. apply in_map_iff in Hp. destruct Hp as (bs & <- & _). apply t_mime_client_one_leaf.
+Qed.
